@@ -1,7 +1,7 @@
 """properties: which rules decide which property, and how a run is reported as evidence."""
 import json, os
 
-CORPUS_FLOOR = {'quick': 200, 'thorough': 1200}
+CORPUS_FLOOR = {'quick': 200, 'thorough': 2500}
 
 TRUSTED = [
     "rustc nightly front end, type checker, trait solver, layout computation and MIR construction at -Zmir-opt-level=0",
